@@ -47,7 +47,10 @@ def classify(d):
     """'violation' | 'argument' (depends on a scalar argument chosen by the caller) | 'generic' (depends on an
     uninstantiated const generic chosen by the caller)"""
     syms = (d or {}).get('syms', [])
-    if any(s.startswith('G:') for s in syms):
+    # a site that fails only for some value of an uninstantiated const generic (N = 0 in `N * 8 - 1`) is the caller's choice; one that
+    # also depends on the *input* (a slice length compared with N) fails for inputs of a perfectly ordinary instantiation
+    input_derived = [s for s in syms if re.match(r'^p\d+_', s) and not re.match(r'^p\d+_[A-Za-z0-9_]+$', s)]      # p1_data.len, p1_self*.0[3], ..
+    if any(s.startswith('G:') for s in syms) and not input_derived:
         return 'generic'
     if scalar_param_syms(syms):
         return 'argument'
